@@ -1674,6 +1674,25 @@ class Interp:
             return Via(last, a0, inst or callee)
         if callee.endswith("Tag::context") and len(args) == 1:
             return TagV("ctx", args[0])
+        # Option::filter(pred) / Option::is_some_and(pred): Some(payload) / true exactly when present and pred(payload)
+        rty_ = (n.get("recv") or {}).get("ty", "") or ""
+        if last in ("filter", "is_some_and", "is_none_or") and len(args) == 2 and "std::option::Option<" in rty_[:60] and (isinstance(core(args[1]), ClosureV) or self._is_fnitem(args[1])):
+            cb_ = core(args[1])
+            payload_ = Sel(args[0], "?")
+            pv_ = self.call_closure(cb_, [payload_]) if isinstance(cb_, ClosureV) else self.call_body(cb_.path, self.crate.bodies[cb_.path], [payload_])
+            sm_ = self._some(core(args[0]))
+            f_ = And(sm_, self.to_formula(pv_))
+            if last == "is_some_and":
+                return BoolV(f_)
+            if last == "is_none_or":
+                return BoolV(Or(Not(sm_), self.to_formula(pv_)))
+            some_ = StructV("std::option::Option", "Some", {"0": payload_})
+            none_ = StructV("std::option::Option", "None", {})
+            if f_ is True:
+                return some_
+            if f_ is False:
+                return none_
+            return PhiV([(f_, some_), (Not(f_), none_)])
         # bool::then_some(x) / then(f): Some(..) exactly when the receiver holds
         if last in ("then_some", "then") and len(args) == 2 and (n.get("recv") or {}).get("ty", "").lstrip("&") == "bool":
             f_ = self.to_formula(args[0])
